@@ -1,29 +1,45 @@
 #!/bin/bash
-# usage: tools/seedtest.sh <ID> <demo path relative to worktree> [check ids...]
-# Validates a seeded change produced in /tmp/seed/<ID>, stores it under /verif/seeded/<ID>, runs the checks against it.
+# usage: tools/seedtest.sh <NAME> <demo path relative to worktree> [check ids...]
+# NAME = property id plus an optional round suffix (C04, C04b, ...). Validates a seeded change produced in
+# /tmp/seed/<NAME>, stores it under /verif/seeded/<NAME>, runs the quick checks (default: the property's) against it.
 set -u
-ID=$1; DEMO=$2; shift 2; CHECKS="${*:-$ID}"
-W=/tmp/seed/$ID
+NAME=$1; DEMO=$2; shift 2
+ID=${NAME:0:3}
+CHECKS="${*:-$ID}"
+W=/tmp/seed/$NAME
 export PATH=/opt/veriftools/go1.26.8/bin:$PATH GOTOOLCHAIN=local GOFLAGS=-mod=mod GOPROXY=off GOSUMDB=off
 cd $W || exit 2
 PKG=./$(dirname $DEMO)
-echo "== demo WITH change"; timeout 300 go test -vet=off -count=1 -timeout 200s -run 'TestSeedDemo$' $PKG > /tmp/seed/$ID.with.log 2>&1; WITH=$?; tail -3 /tmp/seed/$ID.with.log
-git stash -q
-echo "== demo WITHOUT change"; timeout 300 go test -vet=off -count=1 -timeout 200s -run 'TestSeedDemo$' $PKG > /tmp/seed/$ID.without.log 2>&1; WITHOUT=$?; tail -2 /tmp/seed/$ID.without.log
-git stash pop -q
-echo "== existing suite WITH change (demo skipped)"; timeout 900 go test -vet=off -count=1 -timeout 300s -skip 'TestSeedDemo' . ./internal/... ./stats > /tmp/seed/$ID.suite.log 2>&1; SUITE=$?; grep -v "^ok\|no test files" /tmp/seed/$ID.suite.log | tail -5
+# the worktree must contain exactly patch.diff on top of HEAD (agents' stashes crossed once)
+git diff -- . ':!zz_seed_demo_test.go' > /tmp/seed/$NAME.cur.diff
+git checkout -q -- . && git apply patch.diff || { echo "patch.diff does not apply to a clean checkout"; exit 2; }
+echo "== demo WITH change"; timeout 300 go test -vet=off -count=1 -timeout 200s -run 'TestSeedDemo$' $PKG > /tmp/seed/$NAME.with.log 2>&1; WITH=$?; tail -3 /tmp/seed/$NAME.with.log
+git apply -R patch.diff
+echo "== demo WITHOUT change"; timeout 300 go test -vet=off -count=1 -timeout 200s -run 'TestSeedDemo$' $PKG > /tmp/seed/$NAME.without.log 2>&1; WITHOUT=$?; tail -2 /tmp/seed/$NAME.without.log
+git apply patch.diff
+echo "== existing suite WITH change (demo skipped)"; timeout 900 go test -vet=off -count=1 -timeout 300s -skip 'TestSeedDemo' . ./internal/... ./stats > /tmp/seed/$NAME.suite.log 2>&1; SUITE=$?; grep -v "^ok\|no test files" /tmp/seed/$NAME.suite.log | tail -5
 echo "with=$WITH without=$WITHOUT suite=$SUITE"
-mkdir -p /verif/seeded/$ID
-cp patch.diff /verif/seeded/$ID/patch.diff
-cp $DEMO /verif/seeded/$ID/$(basename $DEMO)
-[ -f NOTES.md ] && cp NOTES.md /verif/seeded/$ID/NOTES.md
-cd /repo && git apply /verif/seeded/$ID/patch.diff || { echo "patch does not apply to /repo"; exit 2; }
+mkdir -p /verif/seeded/$NAME
+cp patch.diff /verif/seeded/$NAME/patch.diff
+cp $DEMO /verif/seeded/$NAME/$(basename $DEMO)
+[ -f NOTES.md ] && cp NOTES.md /verif/seeded/$NAME/NOTES.md
+cat > /verif/seeded/$NAME/meta.json <<M
+{
+ "property": "$ID",
+ "source": "independent sub-agent given only the property text and a scratch worktree (round ${NAME:3})",
+ "patch": "patch.diff",
+ "demonstration": ["$(basename $DEMO)"],
+ "demo_package_dir": "$(dirname $DEMO)",
+ "validated": "tools/seedtest.sh: demo with the patch exit=$WITH (must fail), without exit=$WITHOUT (must pass), existing suite with the patch exit=$SUITE (must pass)",
+ "needs_to_manifest": "see NOTES.md"
+}
+M
+# the checks run against the scratch worktree itself (VERIF_REPO), with their evidence and replays kept out of /verif
 RES=""
 for c in $CHECKS; do
   echo "== check $c against the seeded change"
-  (cd /verif && timeout 1800 ./check.sh $c quick > /tmp/seed/$ID.check.$c.log 2>&1); rc=$?
-  grep "VIOLATION\|UNDECIDED\|^OK" /tmp/seed/$ID.check.$c.log | cut -c1-260 | head -6
+  (cd /verif && VERIF_REPO=$W VERIF_EVIDENCE_DIR=/tmp/seed/$NAME.evidence VERIF_REPLAYS_DIR=/tmp/seed/$NAME.replays timeout 2400 ./check.sh $c quick > /tmp/seed/$NAME.check.$c.log 2>&1); rc=$?
+  grep "VIOLATION\|UNDECIDED\|^OK" /tmp/seed/$NAME.check.$c.log | cut -c1-260 | head -6
   RES="$RES $c=$rc"
 done
-cd /repo && git checkout -- . && git status --short | head -3
-echo "RESULT $ID demo_with=$WITH demo_without=$WITHOUT suite=$SUITE checks:$RES"
+echo "RESULT $NAME demo_with=$WITH demo_without=$WITHOUT suite=$SUITE checks:$RES"
